@@ -1,9 +1,17 @@
 """Regenerate /verif/MANIFEST.json from vlib/registry.py and properties.jsonl."""
 import json
 import os
-from vlib import registry
+import importlib
 
 ROOT = os.path.dirname(os.path.dirname(os.path.abspath(__file__)))
+
+
+def registration(pid):
+    path = os.path.join(ROOT, "vlib", "checks", pid.lower() + ".py")
+    if not os.path.exists(path):
+        return None
+    mod = importlib.import_module("vlib.checks." + pid.lower())
+    return getattr(mod, "REGISTRATION", None)
 
 
 def main():
@@ -11,7 +19,7 @@ def main():
     checks = []
     engines = {}
     for pid in props:
-        c = registry.CHECKS.get(pid)
+        c = registration(pid)
         if not c:
             continue
         checks.append({
@@ -28,9 +36,9 @@ def main():
         engines.setdefault(c["engine"], []).append(pid)
     na = []
     for pid in props:
-        if pid not in registry.CHECKS:
+        if not registration(pid):
             na.append({"property_id": pid,
-                       "reason": registry.NOT_YET.get(pid, "no check registered in this revision (machinery under construction; see DESIGN.md §5 for the design)")})
+                       "reason": "no check registered in this revision (machinery under construction; see DESIGN.md §5 for the design)"})
     m = {
         "version": 1,
         "setup_cmd": "./setup.sh",
